@@ -13,12 +13,12 @@ The expressions are what the code computes (they are not log-densities: DESIGN A
 
 namespace AF
 
-inductive PriorKind | uniform | logUniform | gaussian | logGaussian | other
+inductive LpKind | uniform | logUniform | gaussian | logGaussian | other
   deriving DecidableEq, Repr, Inhabited
 
 /-- what `log_prior_from_value` reads from a prior -/
 structure PriorD (V : Type) where
-  kind : PriorKind
+  kind : LpKind
   mean : V
   sigma : V
 
@@ -83,7 +83,7 @@ def floatLp : LpOps Float where
   log := Float.log
   le0 := fun a => a ≤ 0
 
-def PriorKind.ofString : String → PriorKind
+def LpKind.ofString : String → LpKind
   | "Uniform" => .uniform
   | "LogUniform" => .logUniform
   | "Gaussian" => .gaussian
